@@ -403,12 +403,21 @@ func c10Watch(R *vr.Result, name string, done chan struct{}, completed, inflight
 					continue
 				}
 				s2, b2, w2, _ := ovlDispatcherState(ovlDump(), 0)
+				// keep looking for another 20 s: a real wedge never resolves, a stall under load does
+				for k := 0; k < 20 && b1 && b2 && w1 == w2; k++ {
+					time.Sleep(time.Second)
+					if atomic.LoadInt64(completed) != cur {
+						b2 = false
+						break
+					}
+					s2, b2, w2, _ = ovlDispatcherState(ovlDump(), 0)
+				}
 				if b1 && b2 && w1 == w2 {
 					site := w1
 					if i := strings.Index(site, " <- "); i > 0 {
 						site = site[:i]
 					}
-					R.Violate("c10:dispatcher-blocked:"+s1+":"+site, fmt.Sprintf("no request completed for %.1f s with %d outstanding; in two goroutine dumps 1 s apart the dispatcher goroutine is blocked (%s / %s) at %s", float64(still)/2, atomic.LoadInt64(inflight), s1, s2, w1), name, map[string]any{"dispatcher_stack": raw1})
+					R.Violate("c10:dispatcher-blocked:"+s1+":"+site, fmt.Sprintf("no request completed for %.1f s with %d outstanding; in every goroutine dump taken over the following 21 s the dispatcher goroutine is blocked (%s / %s) at %s", float64(still)/2, atomic.LoadInt64(inflight), s1, s2, w1), name, map[string]any{"dispatcher_stack": raw1})
 					return "wedged"
 				}
 			}
